@@ -19,3 +19,14 @@ Theorem C03_injective :
   final_map V ops1 = final_map V ops2.
 Proof. exact Top.C03_injective. Qed.
 Print Assumptions C03_injective.
+
+Theorem C03_different_content_different_hash :
+  forall (digest V : Type) (H : list (tok digest V) -> digest) (lvl_of : N -> N),
+  (forall k : N, lvl_of k < 255) ->
+  (forall a b : list (tok digest V), H a = H b -> a = b) ->
+  forall (ops1 ops2 : list (op V)) (t1 t2 : mst digest V),
+  run digest V H lvl_of ops1 = Ok t1 -> run digest V H lvl_of ops2 = Ok t2 ->
+  final_map V ops1 <> final_map V ops2 ->
+  snd (mst_root_hash digest V H t1) <> snd (mst_root_hash digest V H t2).
+Proof. exact Top.C03_different_content_different_hash. Qed.
+Print Assumptions C03_different_content_different_hash.
